@@ -82,7 +82,52 @@ Fixpoint attrs (p : pat) : list attr :=
   end.
 
 (* ---------------------------------------------------------------------------------------------
+   the variant of the code the model stands for (leading arguments of a case line; the variant of
+   the checked tree is read from the T-src facts, TieC12.v):
+     pv_bits = width of MacroMetadata::_colon_separator_pos / _file_name_pos (16 = uint16_t, the
+               pinned code; 32 = uint32_t; >= 64 = size_t: no position of a string in memory wraps)
+     pv_esc  = _generate_fmt_format_string doubles the '{' and '}' of the literal text before the
+               %(...) attributes are rewritten (false = the pinned code: handed to fmt as they are) *)
+Record pvar := { pv_bits : N; pv_esc : bool }.
+Definition pv_pinned : pvar := {| pv_bits := 16; pv_esc := false |}.
+Definition pv_repaired : pvar := {| pv_bits := 64; pv_esc := true |}.
+
+(* ---------------------------------------------------------------------------------------------
    _generate_fmt_format_string *)
+
+(* the pre-pass of the repaired code:
+     for (i = 0; i < pattern.size(); ++i)
+       if (pattern[i] == '%' && i + 1 < pattern.size() && pattern[i + 1] == '(')
+         { i = pattern.find_first_of(')', i); if (i == npos) break; }
+       else if (pattern[i] == '{' || pattern[i] == '}') { pattern.insert(i, 1, pattern[i]); ++i; }
+   [inattr] = between "%(" and the next ')' (copied unchanged, as is everything behind a "%("
+   that is never closed) *)
+Definition is_brace (c : N) : bool := N.eqb c c_lb || N.eqb c c_rb.
+
+Fixpoint esc_scan (inattr : bool) (s : bytes) : bytes :=
+  match s with
+  | [] => []
+  | c :: t =>
+    if inattr then c :: esc_scan (negb (N.eqb c c_rp)) t
+    else if N.eqb c c_pct then
+      match t with
+      | d :: r => if N.eqb d c_lp then c :: d :: esc_scan true r else c :: esc_scan false t
+      | [] => [c]
+      end
+    else if is_brace c then c :: c :: esc_scan false t
+    else c :: esc_scan false t
+  end.
+
+(* what the pre-pass is expected to do to a pattern given as items: every brace of the literal
+   text doubled, attributes (and their specs) unchanged *)
+Fixpoint dbl_braces (s : bytes) : bytes :=
+  match s with
+  | [] => []
+  | c :: t => if is_brace c then c :: c :: dbl_braces t else c :: dbl_braces t
+  end.
+Definition esc_item (it : item) : item :=
+  match it with Lit s => Lit (dbl_braces s) | Attr a sp => Attr a sp end.
+Definition esc_pat (p : pat) : pat := map esc_item p.
 
 (* The scan for the next attribute: arg_identifier_pos = find_first_of('%') then, at each '%',
    the test  find_first_of('(', pos) - pos == 1  (the character after the '%' is '('), otherwise
@@ -146,8 +191,9 @@ Fixpoint gen_loop (fuel : nat) (s : bytes) (idx : nat) (order : list nat) (iset 
     end
   end.
 
-Definition generate (pattern : bytes) : gres :=
-  match gen_loop (S (length pattern)) (pattern ++ [c_nl]) 0
+Definition generate (v : pvar) (pattern : bytes) : gres :=
+  let pattern' := if pv_esc v then esc_scan false pattern else pattern in
+  match gen_loop (S (length pattern')) (pattern' ++ [c_nl]) 0
                  (repeat (ATTR_NR_ITEMS - 1) ATTR_NR_ITEMS) (repeat false ATTR_NR_ITEMS) with
   | LOk f o b =>
       GOk {| g_fmt := f; g_order := o; g_set := b;
@@ -228,8 +274,11 @@ Definition line_spec (p : pat) (env : attr -> bytes) : bytes :=
 End Format.
 
 (* ---------------------------------------------------------------------------------------------
-   MacroMetadata derived fields.  _colon_separator_pos and _file_name_pos are uint16_t. *)
-Definition w16 (x : N) : N := N.modulo x 65536.
+   MacroMetadata derived fields.  _colon_separator_pos and _file_name_pos are unsigned integers
+   of pv_bits bits (uint16_t in the pinned code): static_cast<T>(x) = x mod 2^bits; for size_t
+   (>= 64) the cast of a position inside a string, or of npos, is the identity. *)
+Definition wpos (v : pvar) (x : N) : N :=
+  if N.leb 64 (pv_bits v) then x else N.modulo x (2 ^ pv_bits v).
 
 (* source_loc.rfind(':') : index of the last occurrence; npos (2^64 - 1) when absent *)
 Fixpoint rfind (c : N) (s : bytes) : option N :=
@@ -241,8 +290,8 @@ Fixpoint rfind (c : N) (s : bytes) : option N :=
               end
   end.
 Definition npos : N := 18446744073709551615%N.
-Definition colon_pos (sl : bytes) : N :=
-  w16 (match rfind c_colon sl with Some i => i | None => npos end).
+Definition colon_pos (v : pvar) (sl : bytes) : N :=
+  wpos v (match rfind c_colon sl with Some i => i | None => npos end).
 
 (* _calc_file_name_pos: file = position after the last '/' seen so far *)
 Fixpoint fnpos_loop (s : bytes) (i file : N) : N :=
@@ -251,21 +300,21 @@ Fixpoint fnpos_loop (s : bytes) (i file : N) : N :=
   | x :: t => if N.eqb x c_slash then fnpos_loop t (N.succ i) (N.succ i)
               else fnpos_loop t (N.succ i) file
   end.
-Definition file_name_pos (sl : bytes) : N := w16 (fnpos_loop sl 0 0).
+Definition file_name_pos (v : pvar) (sl : bytes) : N := wpos v (fnpos_loop sl 0 0).
 
 Definition skipN (n : N) (s : bytes) := skipn (N.to_nat n) s.
 Definition firstN (n : N) (s : bytes) := firstn (N.to_nat n) s.
 
 Definition mm_source_location (sl : bytes) : bytes := sl.
-Definition mm_full_path (sl : bytes) : bytes := firstN (colon_pos sl) sl.
-Definition mm_line (sl : bytes) : bytes := skipN (colon_pos sl + 1) sl.
-Definition mm_short_source_location (sl : bytes) : bytes := skipN (file_name_pos sl) sl.
-Definition mm_file_name (sl : bytes) : bytes :=
-  firstN (colon_pos sl - file_name_pos sl) (skipN (file_name_pos sl) sl).
-(* the views stay inside the string iff the colon exists below 2^16 and is not before the file
-   name; otherwise the C++ reads outside the buffer (undefined behaviour) *)
-Definition mm_in_bounds (sl : bytes) : bool :=
-  N.ltb (colon_pos sl) (N.of_nat (length sl)) && N.leb (file_name_pos sl) (colon_pos sl).
+Definition mm_full_path (v : pvar) (sl : bytes) : bytes := firstN (colon_pos v sl) sl.
+Definition mm_line (v : pvar) (sl : bytes) : bytes := skipN (colon_pos v sl + 1) sl.
+Definition mm_short_source_location (v : pvar) (sl : bytes) : bytes := skipN (file_name_pos v sl) sl.
+Definition mm_file_name (v : pvar) (sl : bytes) : bytes :=
+  firstN (colon_pos v sl - file_name_pos v sl) (skipN (file_name_pos v sl) sl).
+(* the views stay inside the string iff the stored colon position is inside it and is not before
+   the file name; otherwise the C++ reads outside the buffer (undefined behaviour) *)
+Definition mm_in_bounds (v : pvar) (sl : bytes) : bool :=
+  N.ltb (colon_pos v sl) (N.of_nat (length sl)) && N.leb (file_name_pos v sl) (colon_pos v sl).
 
 (* ---------------------------------------------------------------------------------------------
    the statement handed to format() *)
@@ -286,28 +335,28 @@ Fixpoint join_nargs (l : list (bytes * bytes)) : bytes :=
   | (k, v) :: r => k ++ [58; 32]%N ++ v ++ match r with [] => [] | _ => [44; 32]%N ++ join_nargs r end
   end.
 
-Definition env_of (st : stmt) (a : attr) : bytes :=
+Definition env_of (v : pvar) (st : stmt) (a : attr) : bytes :=
   match a with
   | Time => s_time st
-  | FileName => mm_file_name (s_srcloc st)
+  | FileName => mm_file_name v (s_srcloc st)
   | CallerFunction => s_func st
   | LogLevel => s_level st
   | LogLevelShortCode => s_short st
-  | LineNumber => mm_line (s_srcloc st)
+  | LineNumber => mm_line v (s_srcloc st)
   | Logger => s_logger st
-  | FullPath => mm_full_path (s_srcloc st)
+  | FullPath => mm_full_path v (s_srcloc st)
   | ThreadId => s_thread_id st
   | ThreadName => s_thread_name st
   | ProcessId => s_process_id st
   | SourceLocation => mm_source_location (s_srcloc st)
-  | ShortSourceLocation => mm_short_source_location (s_srcloc st)
+  | ShortSourceLocation => mm_short_source_location v (s_srcloc st)
   | Message => s_msg st
   | Tags => match s_tags st with Some t => t | None => [] end
   | NamedArgs => match s_nargs st with Some l => join_nargs l | None => [] end
   end.
 
-Definition format (apply_spec : bytes -> bytes -> bytes) (g : gen) (st : stmt) : fres :=
-  format_env apply_spec g (env_of st).
+Definition format (v : pvar) (apply_spec : bytes -> bytes -> bytes) (g : gen) (st : stmt) : fres :=
+  format_env apply_spec g (env_of v st).
 
 (* ---------------------------------------------------------------------------------------------
    runtime metadata: formatted = msg SEP file SEP line SEP function, SEP = "\x01\x02\x03" *)
@@ -402,10 +451,10 @@ Definition with_msg (st : stmt) (m : bytes) : stmt :=
      s_nargs := s_nargs st; s_msg := m |}.
 
 (* the log_statement strings handed to the sink for one transit event *)
-Definition sink_lines (apply_spec : bytes -> bytes -> bytes) (add_meta : bool) (g : gen) (st : stmt)
-  : option (list fres) :=
+Definition sink_lines (v : pvar) (apply_spec : bytes -> bytes -> bytes) (add_meta : bool) (g : gen)
+                      (st : stmt) : option (list fres) :=
   match dispatch_msgs add_meta (s_nargs st) (s_msg st) with
-  | Some ms => Some (map (fun m => format apply_spec g (with_msg st m)) ms)
+  | Some ms => Some (map (fun m => format v apply_spec g (with_msg st m)) ms)
   | None => None
   end.
 
@@ -509,7 +558,8 @@ Definition rt_stmt (st : stmt) (file line : bytes) : option stmt :=
             s_nargs := s_nargs st; s_msg := msg |}
   end.
 
-(* mode 0: create + format        0 <pattern> <stmt> <table>
+(* [9 <pv_bits> <pv_esc>] then
+   mode 0: create + format        0 <pattern> <stmt> <table>
      obs: 1 <kind>  (constructor throws)  |  0 <format result>   (0 1 7 when the MacroMetadata
      views leave the buffer and an attribute that uses them is in the pattern: UB)
    mode 1: sink lines             1 <add_meta> <site> <pattern> <stmt> <rt_file> <rt_line> <table>
@@ -530,18 +580,18 @@ Fixpoint take_args (n : nat) (l : list N) : option (list (option bytes) * list N
 Definition uses_mm (g : gen) : bool :=
   is_set g FileName || is_set g LineNumber || is_set g FullPath || is_set g ShortSourceLocation.
 
-Definition pat_run_enc (l : list N) : list N :=
+Definition pat_run_v (v : pvar) (l : list N) : list N :=
   match l with
   | 0%N :: r =>
     match take_bytes r with
     | Some (pt, r1) =>
-      match generate pt with
+      match generate v pt with
       | GErr e => [1%N; gerr_code e]
       | GOk g =>
         match take_stmt r1 with
         | Some (st, r2) =>
-          if uses_mm g && negb (mm_in_bounds (s_srcloc st)) then [0; 1; 7]%N
-          else 0%N :: enc_fres (format (table_lookup (take_tbl r2)) g st)
+          if uses_mm g && negb (mm_in_bounds v (s_srcloc st)) then [0; 1; 7]%N
+          else 0%N :: enc_fres (format v (table_lookup (take_tbl r2)) g st)
         | None => bad_case
         end
       end
@@ -550,7 +600,7 @@ Definition pat_run_enc (l : list N) : list N :=
   | 1%N :: am :: site :: r =>
     match take_bytes r with
     | Some (pt, r1) =>
-      match generate pt with
+      match generate v pt with
       | GErr e => [1%N; gerr_code e]
       | GOk g =>
         match take_stmt r1 with
@@ -561,7 +611,7 @@ Definition pat_run_enc (l : list N) : list N :=
             | Some (rl, r4) =>
               match (if N.eqb site 0 then rt_stmt st0 rf rl else Some st0) with
               | Some st =>
-                match sink_lines (table_lookup (take_tbl r4)) (negb (N.eqb am 0)) g st with
+                match sink_lines v (table_lookup (take_tbl r4)) (negb (N.eqb am 0)) g st with
                 | Some ls => 0%N :: N.of_nat (length ls) :: flat_map enc_fres ls
                 | None => [1; 9]%N
                 end
@@ -588,11 +638,19 @@ Definition pat_run_enc (l : list N) : list N :=
   | 3%N :: r =>
     match take_bytes r with
     | Some (pt, _) =>
-      match generate pt with
+      match generate v pt with
       | GErr e => [1%N; gerr_code e]
       | GOk g => 0%N :: enc_bytes (g_fmt g) ++ enc_nats (g_order g) ++ enc_bools (g_set g)
       end
     | None => bad_case
     end
   | _ => bad_case
+  end.
+
+(* a case line may start with the variant header  9 <pv_bits> <pv_esc> ; without it the case is
+   run on the pinned variant (uint16_t positions, braces handed to fmt as they are) *)
+Definition pat_run_enc (l : list N) : list N :=
+  match l with
+  | 9%N :: bits :: esc :: r => pat_run_v {| pv_bits := bits; pv_esc := negb (N.eqb esc 0) |} r
+  | _ => pat_run_v pv_pinned l
   end.
